@@ -13,7 +13,7 @@ import (
 // Explicit-state search over the real entry points (DESIGN.md section 3, explorer 2).
 
 type c16Case struct {
-	Cfg     int   `json:"cfg"`     // bit 0: debug mode, bit 1: custom error page configured
+	Cfg     int   `json:"cfg"`     // bit 0: debug mode, bit 1: custom error page configured, bit 2 (cfg 4, 5): a custom error page that fails itself
 	History []int `json:"history"` // operation indices; the last one is the operation under test
 }
 
@@ -51,12 +51,15 @@ func c16Tree(cfg int) Tree {
 {{ "abc".capitalize() }}{{ "abc".reverse() }}{{ "abc".contains("b") }}{{ "abcdef".truncate(3) }}{{ "12".decimal() }}{{ "abc".at(1) }}{{ "abc".first() }}{{ "abc".last() }}{{ "ab".repeat(2) }}{{ "<b>".raw() }}
 {{ a = [3, 1, 2] }}{{ a.len() }}{{ a.reverse() }}{{ a.slice(1) }}{{ a.contains(2) }}{{ a.append(4).prepend(0) }}{{ a.join("-") }}{{ a.shuffle().len() }}{{ a.rand() > 0 }}
 {{ 5.float() }}{{ (-5).abs() }}{{ 5.str() + "x" }}{{ 123.len() }}{{ 5.decimal(",", 1) }}{{ 2.5.int() }}{{ 2.5.str() }}{{ (-2.5).abs() }}{{ 2.4.ceil() }}{{ 2.6.floor() }}{{ 2.5.round() }}
-{{ true.binary() }}{{ flag.then("y", "n") }}{{ !flag ? 1 : 2 }}{{ {b: 1, a: [1, {c: nil}]}.a[1] }}{{ 7 % 3 }}{{ 1.5 * 2.0 }}{{ 3-- }}{{ 2.5++ }}
+{{ true.binary() }}{{ flag.then("y", "n") }}{{ !flag ? 1 : 2 }}{{ {b: 1, a: [1, {c: nil}]}.a[1] }}{{ 7 % 3 }}{{ 1.5 * 2.0 }}{{ 3-- }}{{ 2.5++ }}{{ {"R&D <x>": 1, "k": 2}["k"] }}{{ {"a&b": "v"} }}
 @dump(name, items, {k: 1})@dump({a: {b: {c: {d: {e: {f: {g: [1, {h: [2, {i: nil}]}]}}}}}}})@if(flag)A@elseif(name == "Bob<b>")B@else C@end
 ` + c16Chains(),
 	}}
 	if cfg&2 != 0 {
 		t.ErrorPage = "err"
+	}
+	if cfg&4 != 0 {
+		t.ErrorPage = "failloop" // a custom error page that fails itself
 	}
 	return t
 }
@@ -291,7 +294,7 @@ func c16Run(c *Ctx) {
 		worlds[cfg] = w
 		return w
 	}
-	for cfg := 0; cfg < 4; cfg++ {
+	for cfg := 0; cfg < 6; cfg++ {
 		if !c.Mine() {
 			continue
 		}
@@ -342,7 +345,7 @@ func c16Run(c *Ctx) {
 	}
 	// brute force: every history up to a small length, without deduplication (blocks: cfg x first operation)
 	nops := len(c16Ops())
-	for cfg := 0; cfg < 4; cfg++ {
+	for cfg := 0; cfg < 6; cfg++ {
 		for first := 0; first < nops; first++ {
 			if !c.Mine() {
 				continue
@@ -399,12 +402,12 @@ func init() {
 	p := &Property{
 		ID:    "C16",
 		Level: "model_checking",
-		Rule:  "explicit-state breadth-first search over the real entry points: from the state after NewTemplate on a fixed tree (layout, component in a loop with slots, failing pages, custom error page), every operation of {String, Response} x {ok page, two failing pages, unknown name, layout name, plain page} x 2 data maps, EvaluateString ok/failing, EvaluateFile ok/missing is applied to every reachable state; a state is the deep hash of every package-level variable of the module, the loaded program table (state vector extracted by the instrumenter); states are deduplicated and the search runs to a fixpoint; repeated for {debug on/off} x {no / valid custom error page}. On every transition the operation's result (output or message+line+path, and the Response body) must equal the result of the same operation issued first in a fresh state, and the restricted vector (ASTs, configuration, registry) and the caller's data must be unchanged. Additionally every history up to a small length is run without deduplication",
+		Rule:  "explicit-state breadth-first search over the real entry points: from the state after NewTemplate on a fixed tree (layout, component in a loop with slots, failing pages, custom error page), every operation of {String, Response} x {ok page, two failing pages, unknown name, layout name, plain page} x 2 data maps, EvaluateString ok/failing, EvaluateFile ok/missing is applied to every reachable state; a state is the deep hash of every package-level variable of the module, the loaded program table (state vector extracted by the instrumenter); states are deduplicated and the search runs to a fixpoint; repeated for {debug on/off} x {no / valid / itself failing custom error page}. On every transition the operation's result (output or message+line+path, and the Response body) must equal the result of the same operation issued first in a fresh state, and the restricted vector (ASTs, configuration, registry) and the caller's data must be unchanged. Additionally every history up to a small length is run without deduplication",
 		Bounds: func(tier string) map[string]any {
 			if tier == "thorough" {
-				return map[string]any{"operations": len(c16Ops()), "bfs_depth_bound": 8, "histories_without_dedup_len": 3, "load_configurations": 4}
+				return map[string]any{"operations": len(c16Ops()), "bfs_depth_bound": 8, "histories_without_dedup_len": 3, "load_configurations": 6}
 			}
-			return map[string]any{"operations": len(c16Ops()), "bfs_depth_bound": 4, "histories_without_dedup_len": 2, "load_configurations": 4}
+			return map[string]any{"operations": len(c16Ops()), "bfs_depth_bound": 4, "histories_without_dedup_len": 2, "load_configurations": 6}
 		},
 		Assume: []string{
 			"canonicalisation argument: the interpreter has no mutable state other than package-level variables and the Template's program table (no goroutines, no open files, no caches elsewhere), all of which are in the hashed vector, so equal vectors have equal futures",
